@@ -64,6 +64,7 @@ def build():
             ('event', 'r is Ok ==> r->Ok_0@ == seq![CertAuthEvent::ChildAdded { child, id_cert, resources }]')]),
         U.fn(CA, 'CertAuth', 'process_child_update_resources', requires=[('key_model', km)], ensures=[
             ('accepted_exactly_when', '(r is Ok) <==> (rs_contains(all_res(*self), resources) && self.children@.contains_key(*child_handle))'),
+            ('replayable_names_only_a_known_child', 'r is Ok ==> self.children@.contains_key(*child_handle)'),
             ('event_or_noop', '''r is Ok ==> (if rs_is_empty(rs_difference(resources, self.children@[*child_handle].resources)) { r->Ok_0@.len() == 0 }
                 else { r->Ok_0@ == seq![CertAuthEvent::ChildUpdatedResources { child: *child_handle, resources }] })''')]),
     ])
